@@ -319,6 +319,7 @@ func c10InlineHeavy(r *Rng) *c10Case {
 func c10Gen(g *Gen) {
 	r := g.R
 	c10GenSpec(g) // kinds 1 and 2: the specification decoder and unescaper against independent Go code
+	c10GenMem(g)  // kind 3: one rewriter chain instance over records aliasing a recycled buffer
 
 	// ---- 1. fixed probes ----
 	{
